@@ -306,7 +306,7 @@ pub fn ljsum(out: &str, thorough: bool, seed: u64) {
     use std::f64::consts::PI;
     std::panic::set_hook(Box::new(|_| {}));
     let mut rng = suites::seeded(seed, 303);
-    let count = if thorough { 6000 } else { 700 };
+    let count = if thorough { 120000 } else { 14000 };
     let mut checked = 0usize;
     let mut small_height = 0usize;
     let mut undefined = 0usize;
@@ -317,14 +317,29 @@ pub fn ljsum(out: &str, thorough: bool, seed: u64) {
         ("trimer(0.5,180,1)".into(), LJShape2::from_trimer(0.5, 180., 1.)),
         ("cut circle 2.5".into(), cut_circle(2.5)),
         ("trimer(1,60,0.8)".into(), LJShape2::from_trimer(1., 60., 0.8)),
+        ("trimer(0.5,180,2)".into(), LJShape2::from_trimer(0.5, 180., 2.)),
+        ("trimer(0.3,150,2)".into(), LJShape2::from_trimer(0.3, 150., 2.)),
+        ("trimer(0.2,120,1)".into(), LJShape2::from_trimer(0.2, 120., 1.)),
+        ("trimer(1.4,100,1)".into(), LJShape2::from_trimer(1.4, 100., 1.)),
     ];
+    let mut bound_states = 0usize;
+    let mut two_site = 0usize;
     for k in 0..count {
         let gname = GROUPS[k % GROUPS.len()];
         let g = group(gname);
         let (sname, shape) = &shapes[(k / GROUPS.len()) % shapes.len()];
-        let st = match PotentialState::from_group(shape.clone(), &g) {
-            Ok(s) => s,
-            Err(_) => continue,
+        let two = k % 5 == 4;
+        let st = if two {
+            // two occupied general sites (library API: initialise with several Wyckoff sites)
+            match packing::wallpaper::WyckoffSite::new(&g) {
+                Ok(site) => PotentialState::initialise(shape.clone(), packing::wallpaper::Wallpaper::new(&g), &[site.clone(), site]),
+                Err(_) => continue,
+            }
+        } else {
+            match PotentialState::from_group(shape.clone(), &g) {
+                Ok(s) => s,
+                Err(_) => continue,
+            }
         };
         let mut j = serde_json::to_value(&st).unwrap();
         let fam = crate::states::family_of(gname);
@@ -344,6 +359,11 @@ pub fn ljsum(out: &str, thorough: bool, seed: u64) {
         j["occupied_sites"][0]["x"] = json!(edge(&mut rng));
         j["occupied_sites"][0]["y"] = json!(edge(&mut rng));
         j["occupied_sites"][0]["angle"] = json!(2. * PI * rng.gen::<f64>());
+        if two {
+            j["occupied_sites"][1]["x"] = json!(edge(&mut rng));
+            j["occupied_sites"][1]["y"] = json!(edge(&mut rng));
+            j["occupied_sites"][1]["angle"] = json!(2. * PI * rng.gen::<f64>());
+        }
         let real: PotentialState<LJShape2> = match serde_json::from_value(j.clone()) {
             Ok(s) => s,
             Err(_) => continue,
@@ -353,7 +373,19 @@ pub fn ljsum(out: &str, thorough: bool, seed: u64) {
             Some(x) => x,
             None => continue,
         };
+        // heavily overlapping states have energies of 1e6 and more, on which a lost pair of the
+        // order 0.01 is below the rounding noise of the sum: most of the budget goes to states of
+        // moderate energy (bound crystals and mildly repulsive ones)
+        if expect.is_finite() && expect.abs() > 1e3 && k % 8 != 0 {
+            continue;
+        }
         checked += 1;
+        if expect.is_finite() && expect.abs() <= 1e3 {
+            bound_states += 1;
+        }
+        if two {
+            two_site += 1;
+        }
         if shells > 4 {
             small_height += 1;
         }
@@ -379,7 +411,8 @@ pub fn ljsum(out: &str, thorough: bool, seed: u64) {
             }
         }
     }
-    let res = json!({"states_checked": checked, "needing_more_than_4_shells": small_height, "undefined": undefined,
+    let res = json!({"states_checked": checked, "moderate_energy_states": bound_states, "two_site_states": two_site,
+        "needing_more_than_4_shells": small_height, "undefined": undefined,
         "samples": samples, "failures": failures.len(), "first_failures": failures.iter().take(10).collect::<Vec<_>>()});
     let mut fo = fs::File::create(out).expect("out");
     writeln!(fo, "{}", res).unwrap();
